@@ -315,6 +315,9 @@ func (d *syslogRFC5424Decoder) parseStructuredData(data []byte) (SyslogSD, int, 
 				}
 				paramID = string(data[startParamID:idx])
 			case b == '"':
+				if idx == 0 {
+					return nil, 0, false
+				}
 				if data[idx-1] == '\\' {
 					break
 				}
